@@ -5,6 +5,7 @@ import (
 	"strconv"
 	"strings"
 
+	"google.golang.org/protobuf/proto"
 	"google.golang.org/protobuf/reflect/protoreflect"
 )
 
@@ -81,7 +82,7 @@ func pokeEmpty(pv reflect.Value, md protoreflect.MessageDescriptor, depth int) i
 }
 
 // nilElems switches build to the representation in which every EMPTY message element of a repeated message
-// field is a nil pointer. protobuf-go reads a nil element as an empty message (and encodes it as a zero-length
+// field (an element whose encoding by the owning runtime is zero bytes long) is a nil pointer. protobuf-go reads a nil element as an empty message (and encodes it as a zero-length
 // element), so for Google V2 messages the contents are the same as with an allocated empty element; gogo and
 // golang/protobuf V1 refuse such a message, the variant is not applied to their types.
 var nilElems bool
@@ -125,7 +126,7 @@ func pokeNilElems(pv reflect.Value, md protoreflect.MessageDescriptor, depth int
 				if ev.Kind() != reflect.Ptr || ev.IsNil() {
 					continue
 				}
-				if isEmptyStruct(ev.Elem()) {
+				if pm, ok := ev.Interface().(proto.Message); ok && proto.Size(pm) == 0 && len(pm.ProtoReflect().GetUnknown()) == 0 {
 					ev.Set(reflect.Zero(ev.Type()))
 					n++
 				} else {
@@ -137,28 +138,4 @@ func pokeNilElems(pv reflect.Value, md protoreflect.MessageDescriptor, depth int
 		}
 	}
 	return n
-}
-
-// isEmptyStruct: every exported field of the generated struct holds its zero value (nil pointers/slices/maps, 0, "").
-func isEmptyStruct(sv reflect.Value) bool {
-	if sv.Kind() != reflect.Struct {
-		return false
-	}
-	for i := 0; i < sv.NumField(); i++ {
-		if sv.Type().Field(i).Tag.Get("protobuf") == "" && sv.Type().Field(i).Tag.Get("protobuf_oneof") == "" && !strings.HasPrefix(sv.Type().Field(i).Name, "XXX_unrecognized") && sv.Type().Field(i).Name != "unknownFields" {
-			continue
-		}
-		f := sv.Field(i)
-		switch f.Kind() {
-		case reflect.Slice, reflect.Map:
-			if f.Len() != 0 {
-				return false
-			}
-		default:
-			if !f.IsZero() {
-				return false
-			}
-		}
-	}
-	return true
 }
